@@ -83,6 +83,17 @@ def rand_box(rng, n, kind):
             k = 3
             c = float(rng.choice([-1.0, 1.0]) * np.exp(rng.uniform(np.log(1e2), np.log(1e5))))
             w = abs(c) * float(np.exp(rng.uniform(np.log(2e-7), np.log(1e-3))))
+        elif kind in ("nonneg", "unit", "nonpos", "zero_mixed"):
+            # bounds exactly equal to zero (x >= 0, the unit box, ...): by far the most common boxes in practice
+            kk = kind if kind != "zero_mixed" else ("nonneg", "unit", "nonpos", "free")[int(rng.integers(0, 4))]
+            k = 0
+            if kk == "nonneg":
+                lb[i] = 0.0
+            elif kk == "nonpos":
+                ub[i] = 0.0
+            elif kk == "unit":
+                lb[i], ub[i] = 0.0, float(2.0 ** rng.integers(-1, 3))
+            continue
         elif kind == "lower":
             k = 1
         elif kind == "upper":
